@@ -191,7 +191,9 @@ var blockedInGlb = regexp.MustCompile(`(?s)^goroutine (\d+) \[(sync\.Mutex\.Lock
 
 // a goroutine with a glb frame on its stack that can still move: whoever holds the lock the others wait for is one of
 // these as long as the lane, the logger, the filter is merely busy
-var activeInGlb = regexp.MustCompile(`(?s)^goroutine \d+ \[(running|runnable|syscall|IO wait|sleep)[^\]]*\]:.*github\.com/whoisnian/glb/`)
+// (a "sleep (durable)" is a sleep on the virtual clock of a bubble: that clock stands still while a goroutine of the
+// bubble waits for a lock, so such a sleeper cannot move either and does not count)
+var activeInGlb = regexp.MustCompile(`(?s)^goroutine \d+ \[(running|runnable|syscall|IO wait|sleep)(,[^\]]*)?\]:.*github\.com/whoisnian/glb/`)
 
 var waitSuffix = regexp.MustCompile(`^(goroutine \d+ \[[^,\]]*)[^\]]*\]`)
 
